@@ -166,7 +166,9 @@ def oracle(ctx, seeds=None):
                 return a_, b_
             ok, out = impl.guarded(run)
             res.case(('mirror-solve', name, model, bool(loc)))
-            if ok and not out[0].isnan() and not out[1].isnan():
+            if ok and not out[0].isnan() and not out[1].isnan() and \
+                    max(float(np.max(np.abs(d))) for d in list(out[0].data) + list(out[1].data)) <= 1e6 * (max(float(np.max(np.abs(d))) for d in f.data) + 1e-300):
+                # (runs that blow up without reaching NaN - per-cell steps dx/|u| next to u = 0 - are decided by round-off, like NaN runs)
                 a_, b_ = out
                 implicit = name in ('implicit', 'cranknicolson', 'gear')
                 worst = abs(a_.time - b_.time) / (abs(a_.time) + 1e-300)
